@@ -135,6 +135,9 @@ func (s *sim) propose(chain *core.BlockChain, engine *ucon.Server, parent *types
 		r0, v0, s0 := statedb.IntermediateRoot(true)
 		gas0, used0, rew0 := gp.Gas(), header.GasUsed, new(big.Int).Set(header.GasRewards)
 
+		// miner/worker.go:382 (commitTransactions) derives the sender of every candidate first and
+		// ignores the error; ApplyTransaction derives it again on the same object
+		_, _ = types.Sender(signer, cd.tx)
 		statedb.Prepare(cd.tx.Hash(), common.Hash{}, tcount)
 		snap := statedb.Snapshot()
 		receipt, _, aerr := processor.ApplyTransaction(cd.tx, signer, statedb, chain, header, &coinbase, &header.GasUsed, header.GasRewards, gp, vmCfg, local.FakeRecorder())
